@@ -393,7 +393,7 @@ impl RtpsReaderProxy {
 }
 
 // Verification hook: read-only view of the requested-fragments map.
-#[cfg(rustdds_verif)]
+#[cfg(all(rustdds_verif, any(not(rustdds_verif_only), rustdds_verif_c04, rustdds_verif_c06, rustdds_verif_c20)))]
 impl RtpsReaderProxy {
   pub(crate) fn verif_frags_requested(&self) -> Vec<(i64, Vec<bool>)> {
     self
@@ -465,7 +465,7 @@ impl Iterator for FragBitVecIterator {
 // }
 
 // Verification hooks (C02): read-only digest of the private repair state.
-#[cfg(rustdds_verif)]
+#[cfg(all(rustdds_verif, any(not(rustdds_verif_only), rustdds_verif_c02)))]
 impl RtpsReaderProxy {
   /// (unsent_changes, pending_gap, frags_requested as (sn, bits))
   pub(crate) fn verif_c02_digest(&self) -> (Vec<i64>, Vec<i64>, Vec<(i64, Vec<bool>)>) {
